@@ -105,6 +105,15 @@ func (f *Frame) call(in ssa.Instruction, cc *ssa.CallCommon, st *State) []Term {
 			// call-site clauses may name a function-valued parameter
 			f.callsiteObligations(in, p.Name(), p.Name(), nil, args, st)
 		}
+		if ld, ok := cc.Value.(*ssa.UnOp); ok {
+			if fa, ok := ld.X.(*ssa.FieldAddr); ok {
+				if stt, ok := deref(fa.X.Type()).Underlying().(*types.Struct); ok {
+					// ... or a function value loaded from a struct field, by the field's name
+					n := stt.Field(fa.Field).Name()
+					f.callsiteObligations(in, n, n, nil, args, st)
+				}
+			}
+		}
 		res := f.opaqueCall(in, cc, nil, args, st)
 		// a function-valued parameter is recorded under the parameter's name
 		if p, ok := cc.Value.(*ssa.Parameter); ok && !st.dead() {
@@ -1238,6 +1247,27 @@ func (f *Frame) recordCall(st *State, cc *ssa.CallCommon, res []Term, names ...s
 		st.Ghost["failed:"+n] = failed
 		if len(res) >= 1 && res[0].Sort == SInt {
 			st.Ghost["result:"+n] = res[0]
+		}
+		// what the call left behind its pointer arguments to strings and
+		// booleans ("out parameters"), under position 100 + argument index
+		// (the receiver of a method is argument 0)
+		for i, a := range cc.Args {
+			pt, ok := a.Type().Underlying().(*types.Pointer)
+			if !ok {
+				continue
+			}
+			bt, ok := pt.Elem().Underlying().(*types.Basic)
+			if !ok || (bt.Kind() != types.String && bt.Kind() != types.Bool) {
+				continue
+			}
+			pv := f.get(a)
+			if len(pv) != 1 {
+				continue
+			}
+			vals := f.ctx.load(st, f.ctx.shapeOf(pv[0], a.Type()))
+			if len(vals) == 1 && (vals[0].Sort == SStr || vals[0].Sort == SBool) {
+				st.Ghost[fmt.Sprintf("res:%s:%d", n, 100+i)] = vals[0]
+			}
 		}
 		// single-leaf results by position (strings, booleans)
 		off := 0
